@@ -2,7 +2,10 @@
 
 legs: t1t, t2t, t3t, t3e (library's Type3TagEmulation is the tag), t4t; plus
 `lengths`: every message length 0..cap+1 for a fixed set of small layouts
-(bounded exhaustive).
+(bounded exhaustive); plus `history`: several operations on ONE tag object
+(read, has_changed, assignments, repeated assignments, format), any of them
+with a communication fault at a command position, judged against a model of
+the tag content - see run_history.
 
 Oracle per case (layout, old message, new length):
  1. the tag activates and tag.ndef exists (layouts are well formed)
@@ -30,6 +33,15 @@ ASSUMPTIONS = [
     "control TLVs only reserve bytes behind themselves",
     "Type 4 Tag uses short-length APDUs only (no extended length support in "
     "the library); FeliCa Lite personalities are covered by C20/C16",
+    "history leg: faults are never injected on the second packet of the "
+    "Type 2 SECTOR SELECT (acknowledged by silence, same exemption as C16); "
+    "a Type 4 history ends after the first operation that met an injected "
+    "fault (that operation is still judged) because the ISO-DEP session "
+    "state after a given-up APDU is the known finding "
+    "C12-no-resync-after-error; a history ends when format() raised (the "
+    "management data may be half rewritten, not a well-formed layout); the "
+    "fresh activation reads a copy of the tag's persistent memory so that "
+    "the session of the tag object under test is not disturbed",
 ]
 
 
@@ -172,6 +184,171 @@ def _firstdiff(a, b):
     return min(len(a), len(b))
 
 
+# histories on one tag object --------------------------------------------------
+class _Model(object):
+    """what C01 promises along a history.  ``expected`` is the message the tag
+    holds as far as the model knows (None = not known), ``exact`` says that
+    tag object and tag are in a state the property speaks about: the last
+    thing that happened was a verified assignment (or nothing happened yet)
+    and no operation raised since."""
+
+    def __init__(self, b, desc, ctx):
+        self.b, self.desc, self.ctx = b, desc, ctx
+        self.expected, self.exact = b.old, True
+        self.attempts = 0           # assignments / formats tried so far
+        self.verified = 0
+        self.after_trouble = 0      # verified after an earlier raise/format
+        self.trouble = False
+
+    def before(self, i, op, tag):
+        pass
+
+    def after(self, i, op, out):
+        r = self._after(i, op, out)
+        if r is None and tc.session_undefined(self.b, out):
+            self.ctx.label("history-ends:t4t-fault")
+            return "stop"
+        return r
+
+    def _after(self, i, op, out):
+        name, st_ = out["op"], out["status"]
+        ctx, desc = self.ctx, self.desc
+        ctx.label("%s:%s" % (name, st_))
+        if out.get("again"):
+            ctx.label("write-again:%s" % st_)
+        clean = out["hits"] == 0
+        if st_ == "oversize-accepted":
+            raise Violation("oversize-accepted", "op %d: %d bytes, capacity "
+                            "%d" % (i, len(out.get("data", b"")), out["cap"]))
+        if st_ == "oversize":
+            if out["oversize_commands"]:
+                raise Violation("oversize-sent-commands", "op %d: %d commands"
+                                % (i, out["oversize_commands"]))
+            return
+        if st_ == "skipped":
+            if clean and self.exact:
+                raise Violation("ndef-not-found", "op %d (%s) found no "
+                                "writeable ndef although nothing went wrong "
+                                "before: %r" % (i, name, desc))
+            self.exact = False          # an error was swallowed by tag.ndef
+            return
+        if name == "write":
+            self._capacity(i, out)
+        if st_ == "error":
+            if clean and self.exact:
+                raise unexpected(out["error"], name + "-raises",
+                                 detail="op %d, no fault injected" % i)
+            self.exact = False
+            self.trouble = True
+            if name in ("write", "format"):
+                self.expected = None
+                self.attempts += 1
+            if name == "write" and out["hits"] and op["fault"][3] == "rsp":
+                # the tag may have executed a write command whose response
+                # the reader never saw (coverage label only)
+                ctx.label("assignment-raised:write-response-lost")
+            if name == "format":
+                # the management data may be half rewritten: not a layout
+                # the property quantifies over
+                ctx.label("history-ends:format-raised")
+                return "stop"
+            return
+        if name in ("read", "changed") and out["result"] is None and \
+                not clean:
+            self.exact = False          # an error was swallowed by tag.ndef
+        elif name == "read":
+            if clean and self.exact and out["result"] != self.expected:
+                raise Violation("read-mismatch", "op %d: tag object reports "
+                                "%s, tag holds %d bytes: %r"
+                                % (i, _len(out["result"]), len(self.expected),
+                                   desc))
+        elif name == "changed":
+            if clean and self.exact and (out["changed"] or
+                                         out["result"] != self.expected):
+                raise Violation("has-changed-after-verified-write",
+                                "op %d: has_changed=%r, octets %s, tag holds "
+                                "%d bytes: %r" % (i, out["changed"],
+                                                  _len(out["result"]),
+                                                  len(self.expected), desc))
+        elif name == "format":
+            self.attempts += 1
+            if out["result"] is None and out["exchanges"] == 0:
+                return                  # not supported, nothing was sent
+            self.expected, self.exact = None, False
+            if out["result"] is True:
+                self.trouble = True
+        else:
+            self._verify(i, out)
+
+    def _capacity(self, i, out):
+        area = tc.current_area(self.b)
+        if area is not None and out["cap"] > area[1]:
+            raise Violation("capacity-overreported", "op %d: reported %d, "
+                            "layout holds %d: %r" % (i, out["cap"], area[1],
+                                                     self.desc))
+
+    def _verify(self, i, out):
+        """an assignment returned: a fresh activation must read the octets"""
+        data, desc = out["data"], self.desc
+        L = len(data)
+        try:
+            c = tc.clone(self.b)
+            clf2, tag2 = tc.activate(c)
+            ndef2 = tag2.ndef if tag2 is not None else None
+        except Exception as e:
+            raise unexpected(e, "fresh-read-raises")
+        if ndef2 is None:
+            raise Violation("fresh-read-none", "op %d: after writing %d "
+                            "bytes: %r" % (i, L, desc))
+        got = ndef2.octets
+        if got != data or ndef2.length != L:
+            raise Violation("roundtrip-mismatch", "op %d: wrote %d bytes, "
+                            "fresh reader got %d (first diff at %s): %r"
+                            % (i, L, len(got), _firstdiff(got, data), desc))
+        ref = self.b.ref_read()
+        if ref != data:
+            raise Violation("reference-reader-disagrees",
+                            "op %d: wrote %d bytes, reference reads %s: %r"
+                            % (i, L, _len(ref), desc))
+        self.verified += 1
+        if self.attempts and L > 0:
+            self.ctx.nontrivial()
+        if self.trouble:
+            self.after_trouble += 1
+            self.ctx.label("verified-after-raise-or-format")
+        self.attempts += 1
+        self.expected, self.exact = data, True
+
+
+def _len(x):
+    return "None" if x is None else "%d bytes" % len(x)
+
+
+def run_history(case, ctx):
+    """Oracle along the history (model in _Model): every assignment that
+    RETURNED (with or without injected faults, after whatever happened
+    before on this tag object) is followed by a fresh activation of a copy of
+    the tag memory, which must read exactly the assigned octets, and the
+    reference reader must agree.  While nothing has gone wrong since the
+    last verified assignment: tag.ndef reports the model's octets,
+    has_changed is False, an assignment without injected fault does not
+    raise.  Always: reported capacity <= true capacity of the layout the tag
+    holds now; over-capacity data raises ValueError without any command.
+    Operations with an injected fault may raise nfc.tag.TagCommandError and
+    nothing else."""
+    desc = case["tag"]
+    b = tc.build(desc, case["old"], case["old_seed"])
+    if b is None:
+        ctx.label("layout-without-room")
+        return
+    ctx.label(tc.classify(desc))
+    ctx.set_class("history/" + input_class(desc, -1, b.cap))
+    m = _Model(b, desc, ctx)
+    counts = tc.rehearse(desc, case["old"], case["old_seed"], case["ops"])
+    tc.play(b, case["ops"], m, counts)
+    ctx.note({"verified": m.verified, "after_trouble": m.after_trouble})
+
+
 # bounded exhaustive: all lengths for a few small layouts ----------------------
 SMALL = [
     {"kind": "t2t", "size": 6, "extra": 0, "ctrl": [], "nulls": 0,
@@ -229,6 +406,24 @@ LEGS = [
     _leg("t3t", tc.t3t_desc("t3t"), 1500, 30000),
     _leg("t3e", tc.t3t_desc("t3e"), 1200, 20000),
     _leg("t4t", tc.t4t_desc(), 1500, 30000),
+    Leg("history", run=run_history,
+        gen=lambda tier: st.fixed_dictionaries({
+            "tag": tc.hist_desc(), "old": tc.hist_len(False),
+            "old_seed": st.integers(0, 3), "ops": tc.hist_ops(True)}),
+        quick=4800, thorough=60000, shards_quick=8, shards_thorough=16,
+        nt_floor=0.1,
+        rule="constructed layouts of every tag type (Topaz / Topaz-512 with "
+             "their real memory size) x old message x 2..7 operations on ONE "
+             "tag object from {tag.ndef, has_changed, assign octets (seed "
+             "from 4 values, or the last attempted octets again), "
+             "format(version, wipe)}, each optionally with a communication "
+             "fault (timeout / transmission / protocol; command or response "
+             "lost; burst 1, 2, 3 or until the operation ends) starting at "
+             "its k-th exchange, k reduced modulo the operation's exchange "
+             "count in a fault-free rehearsal; non-trivial = a non-empty assignment that "
+             "returned was verified by a fresh activation after at least "
+             "one earlier assignment attempt or format on the same tag "
+             "object; distinct by case hash."),
     Leg("lengths", run=run, enum=enum_lengths, exhaustive=True,
         shards_quick=4, shards_thorough=16,
         rule="every message length 0..capacity+1 on fixed small layouts of "
